@@ -75,6 +75,10 @@ CHECKS["C08"] = dict(level="exploration", design="4/C08, 8", technique="model-de
     text="a) every valid token stream of spec/DslLayout.tla with one (exhaustive on a block of documents) or two (sampled) token deletions / duplications / substitutions / transpositions / truncations is rendered by TLC and fed to 8 text entry points; b) spec/Degenerate.tla enumerates base models x sets of holes (40 kinds of missing optional parts x sites), the harness punches them into the protobuf value and calls 6 model entry points, TLC validates TotalOnDegenerateModels on the recorded outcomes; c) spec/Pump.tla derives pumped families (49 separator / lexeme units x 7 grammatical contexts, 6 model families for the graph builders), the harness measures first-encounter work for doubling n in a fresh process per unit, TLC validates WorkWithinQuadratic; d) auxiliary, not model-derived: seeded byte mutations of the fixture corpus. A panic, a call that does not return, or super-quadratic growth is a violation.",
     note="Exploration level. Inputs far from any sentence are only sampled (part d); coverage-guided fuzzing would reach further but is another technique. The complexity clause is a measurement (allocation counts of the first call; wall time above 5 ms for the CPU-bound graph families; two consecutive doublings >= 4.8x).")
 
+CHECKS["C14"] = dict(level="model_checking", design="4/C14, 3.2", technique="byte-exact TLA+ transcription of the printer incl. its sort orders (string order defined in the spec); TLC enumerates attributed models and checks SourceCommentsInert; outputs replayed over shuffled JSON key orders, permuted type definitions, repetitions and both option values",
+    text="spec/Dsl.tla defines PrintM(M, on) with byte order on strings, sortByModule and the stable sorts in the specification itself; TLC enumerates a model of 2 types / 3 relations / 2 conditions under every combination of (module, file) attribution from a pool (empty module with file, file names with blank, '#', ', file:') and checks StripComments(PrintM(M, TRUE)) = PrintM(M, FALSE). For each model the real printer is called from 4-10 shuffled JSON key orders x permuted type definitions x 3 repetitions x both option values: all outputs must be byte-identical and equal to TLC's text (the documented order); stripping comments of the source-info output must give the plain output and both must parse to the model.",
+    note="Trusted: TLC, PrintM as the documented order. Module and file names are single-line. Type definitions are permuted only for modular models.")
+
 NOT_YET = "check not built yet in this round (see DESIGN.md section 9 for the order of work)"
 
 
